@@ -33,6 +33,13 @@ SCENARIOS: list[dict] = [
            "def deco(f: int) -> int:\n    return f\n"],
      "U": ["from {D} import deco\n@deco\ndef g(x: int) -> int:\n    return x\nr: int = g(1)\nclass K:\n    @deco\n    def m(x: int) -> int:\n        return x\n"],
      "V": ["import {U}\ndef h() -> int:\n    return {U}.g(2)\nw = {U}.g\n"]},
+    {"name": "decorated-method", "construct": "decorated method: the Decorator node's var.type in the class symbol table (snapshot_definition of Decorator)",
+     "D": ["from typing import Any, Callable\ndef deco(f: Callable[[Any, int], int]) -> Callable[[Any, int], int]:\n    return f\nclass K:\n    @deco\n    def m(self, x: int) -> int:\n        return x\n",
+           "from typing import Any, Callable\ndef deco(f: Callable[[Any, int], int]) -> Callable[[Any, str], int]:\n    return lambda s, x: 0\nclass K:\n    @deco\n    def m(self, x: int) -> int:\n        return x\n",
+           "from typing import Any, Callable\ndef deco(f: Callable[[Any, int], int]) -> Callable[[Any, int], str]:\n    return lambda s, x: ''\nclass K:\n    @deco\n    def m(self, x: int) -> int:\n        return x\n",
+           "from typing import Any, Callable\ndef deco(f: Callable[[Any, int], int]) -> int:\n    return 0\nclass K:\n    @deco\n    def m(self, x: int) -> int:\n        return x\n",
+           "class K:\n    def m(self, x: int) -> int:\n        return x\n"],
+     "U": ["from {D} import K\nr: int = K().m(1)\ndef f(k: K) -> int:\n    return k.m(2)\n"]},
     {"name": "overload", "construct": "overloaded function (visit_overloaded_func_def / snapshot of OverloadedFuncDef)",
      "D": ["from typing import overload\n@overload\ndef f(x: int) -> int: ...\n@overload\ndef f(x: str) -> str: ...\ndef f(x):\n    return x\n",
            "from typing import overload\n@overload\ndef f(x: int) -> str: ...\n@overload\ndef f(x: str) -> str: ...\ndef f(x):\n    return x\n",
@@ -394,4 +401,54 @@ def pair_histories() -> list[tuple[str, list[dict]]]:
                 steps.append({"edits": [{"kind": "mid-variant", "scenario": sc["name"], "module": inst.modname("M"), "to": v}],
                               "files": inst.files(), "touch": []})
         out.append((sc["name"], steps))
+    return out
+
+
+def packed_sweeps(rng=None, group: int = 10) -> list[tuple[str, list[dict]]]:
+    """Every scenario × every variant of its defining module, `group` scenarios per world: at step k every
+    scenario of the world switches its defining module to the next variant of its walk (the fixed walk
+    v0 → v1 → … → v0 when `rng` is None, a random permutation otherwise); afterwards the middle modules walk
+    through their variants.  The scenarios of one world share no module, so each diagnostic is attributable."""
+    out = []
+    scs = list(SCENARIOS)
+    for g0 in range(0, len(scs), group):
+        part = scs[g0:g0 + group]
+        insts = [Instance(i, sc, None) for i, sc in enumerate(part)]
+        walks = []
+        for inst in insts:
+            nv = len(inst.sc["D"])
+            w = list(range(1, nv)) + [0]
+            if rng is not None:
+                w = list(range(nv))
+                rng.shuffle(w)
+                inst.variant["D"] = w[0]
+                w = w[1:] + [w[0]]
+            walks.append(w)
+
+        def files():
+            o = {}
+            for i in insts:
+                o.update(i.files())
+            return o
+        steps = [{"edits": [], "files": files(), "touch": []}]
+        for k in range(max(len(w) for w in walks)):
+            edits = []
+            for inst, w in zip(insts, walks):
+                if k < len(w):
+                    edits.append({"kind": "variant", "scenario": inst.sc["name"], "module": inst.modname("D"),
+                                  "from": inst.variant["D"], "to": w[k]})
+                    inst.variant["D"] = w[k]
+            steps.append({"edits": edits, "files": files(), "touch": []})
+        mids = [i for i in insts if "M" in i.sc and len(i.sc["M"]) > 1]
+        for k in range(max([len(i.sc["M"]) for i in mids] or [0])):
+            edits = []
+            for inst in mids:
+                nv = len(inst.sc["M"])
+                if k < nv:
+                    to = (k + 1) % nv
+                    edits.append({"kind": "mid-variant", "scenario": inst.sc["name"], "module": inst.modname("M"), "to": to})
+                    inst.variant["M"] = to
+            if edits:
+                steps.append({"edits": edits, "files": files(), "touch": []})
+        out.append((f"{'walk' if rng is None else 'shuffle'}-{g0 // group}", steps))
     return out
